@@ -125,4 +125,16 @@ func init() {
 	c02async := *c03async
 	c02async.Profile.Prop = "C02"
 	Props["C02"].Engines = append(Props["C02"].Engines, &concEngine{opts: &c02async})
+	// C20 / C08 with expiry and a moving clock: lookups of expired-but-unswept entries are misses,
+	// expirations count as evictions, loads race the timer wheel.
+	c20exp := *c20
+	c20exp.Profile = Profile{Prop: "C20", Stats: true, ForceExp: true, NoRef: true, Keys: [2]int{2, 8}}
+	c20exp.OpW = zeroExcept(map[string]int{"set": 10, "get": 14, "getentry": 4, "load": 10, "bulkget": 4, "compute": 6, "computeifabsent": 4, "computeifpresent": 4,
+		"invalidate": 4, "getquiet": 2, "advance": 10, "cleanup": 3, "setexpires": 2})
+	c20exp.NonTrivial = func(o *ConcOutcome) bool { return o.Switches > 4 && o.Probes["atomic-events:Expiration"] > 0 }
+	Props["C20"].Engines = append(Props["C20"].Engines, &concEngine{opts: &c20exp})
+	c08exp := *Props["C08"].Conc
+	c08exp.Profile = Profile{Prop: "C08", ForceExp: true, Keys: [2]int{1, 4}}
+	c08exp.OpW = zeroExcept(map[string]int{"load": 28, "bulkget": 10, "refresh": 5, "bulkrefresh": 3, "set": 6, "invalidate": 5, "get": 5, "compute": 2, "advance": 10, "cleanup": 3})
+	Props["C08"].Engines = append(Props["C08"].Engines, &concEngine{opts: &c08exp})
 }
